@@ -419,10 +419,107 @@ func Worker(shard, n int, tier string) *engine.Result {
 		}
 	}
 	revisitWorker(f, res, tier, shard, n)
+	FailingLeafWorker(f, res, shard, n)
 	SdWorker(f, res, tier, shard, n)
 	CreateWorker(f, res, tier, shard, n)
 	WarmthWorker(f, res, shard, n)
 	return res
+}
+
+// FailingLeafWorker: the reverted call frame is the precompile call itself.  A contract holding a
+// LIMITED grant of the signer calls a state-changing precompile method with arguments the module
+// refuses (more than is delegated, no such unbonding entry, more than the balance, no such
+// delegation), swallows the failure and stops.  The transaction succeeds; apart from the signer's
+// sequence nothing may differ from the state before it - in particular the grant is not used up.
+func FailingLeafWorker(f *Fixture, res *engine.Result, shard, n int) {
+	w := f.W
+	s := w.Eth[f.S]
+	S := w.Addrs[f.S]
+	v1, v2 := w.ValAddr[0].String(), w.ValAddr[1].String()
+	st, di := f.ABIs.Staking, f.ABIs.Distr
+	ctx := w.Ctx()
+	del, _ := w.App.StakingKeeper.GetDelegation(ctx, S, w.ValAddr[0])
+	delegated := del.Shares.TruncateInt()
+	over := delegated.AddRaw(1).BigInt()
+	bal := w.App.BankKeeper.GetBalance(ctx, S, world.Denom).Amount
+	limit := sdk.NewCoin(world.Denom, delegated.MulRaw(3).Add(bal))
+	leaves := []*calltree.Leaf{
+		{Name: "staking.undelegate(signer,delegated+1)", To: precomp.StakingAddr, Data: precomp.MustPack(st, "undelegate", s, v1, over)},
+		{Name: "staking.redelegate(signer,delegated+1)", To: precomp.StakingAddr, Data: precomp.MustPack(st, "redelegate", s, v1, v2, over)},
+		{Name: "staking.cancelUnbondingDelegation(signer,no-entry)", To: precomp.StakingAddr, Data: precomp.MustPack(st, "cancelUnbondingDelegation", s, v1, big.NewInt(5), big.NewInt(w.Header.Height))},
+		{Name: "distribution.withdrawDelegatorRewards(signer,no-delegation)", To: precomp.DistrAddr, Data: precomp.MustPack(di, "withdrawDelegatorRewards", s, v2)},
+		{Name: "ics20.transfer(signer,balance+1)", To: precomp.ICS20Addr, Data: precomp.MustPack(f.ABIs.ICS20, "transfer", world.IBCPort, world.IBCChannelA, world.Denom, bal.AddRaw(1).BigInt(), s,
+			w.Addrs[f.Wd].String(), struct {
+				RevisionNumber uint64
+				RevisionHeight uint64
+			}{3, 100000}, uint64(0), "")},
+	}
+	idx := 0
+	for _, l := range leaves {
+		for _, nested := range []bool{false, true} {
+			idx++
+			if idx%n != shard {
+				continue
+			}
+			root := &calltree.Frame{ID: 0, End: "stop"}
+			holder := root
+			if nested {
+				holder = &calltree.Frame{ID: 1, End: "stop"}
+				root.Items = []calltree.Item{{Child: holder}}
+			}
+			holder.Items = []calltree.Item{{Leaf: l}}
+			sc := Scenario{Root: root, Leaf: l, LeafIn: holder.ID}
+			restore := w.Branch()
+			// limited grants of every staking type and a limited transfer allocation for the caller
+			exp := w.Header.Time.Add(1000 * time.Hour)
+			grantee := sdk.AccAddress(holder.Addr().Bytes())
+			for _, t := range []stakingtypes.AuthorizationType{stakingtypes.AuthorizationType_AUTHORIZATION_TYPE_DELEGATE, stakingtypes.AuthorizationType_AUTHORIZATION_TYPE_UNDELEGATE,
+				stakingtypes.AuthorizationType_AUTHORIZATION_TYPE_REDELEGATE, stakingtypes.AuthorizationType_AUTHORIZATION_TYPE_CANCEL_UNBONDING_DELEGATION} {
+				a, err := stakingtypes.NewStakeAuthorization([]sdk.ValAddress{w.ValAddr[0], w.ValAddr[1]}, nil, t, &limit)
+				if err != nil {
+					panic(err)
+				}
+				if err := w.App.AuthzKeeper.SaveGrant(w.Ctx(), grantee, S, a, &exp); err != nil {
+					panic(err)
+				}
+			}
+			ta := &transfertypes.TransferAuthorization{Allocations: []transfertypes.Allocation{{SourcePort: world.IBCPort, SourceChannel: world.IBCChannelA, SpendLimit: sdk.NewCoins(limit)}}}
+			if err := w.App.AuthzKeeper.SaveGrant(w.Ctx(), grantee, S, ta, &exp); err != nil {
+				panic(err)
+			}
+			a := f.Exec(sc, nil)
+			pre := f.Pre(sc)
+			restore()
+			res.Transitions++
+			res.Evaluations++
+			p := []string{"failing-leaf " + root.String()}
+			res.States[p[0]] = 0
+			flagKey := fmt.Sprintf("%x", append(evmtypes.AddressStoragePrefix(holder.Addr()), common.BigToHash(big.NewInt(calltree.SlotFlag)).Bytes()...))
+			if a.Code != 0 || a.Stores["evm"][flagKey] != "" {
+				// the call did not fail (or the transaction did): not a member of this family
+				res.Outcomes["failing-leaf:not-failing"]++
+				res.HarnessErr = "failing-leaf family: the call " + l.Name + " did not fail as constructed"
+				continue
+			}
+			res.Outcomes["failing-leaf:failed-and-caught"]++
+			res.Nontrivial[p[0]] = true
+			dd := f.DiffRuns(a, pre, sc, nil)
+			if acc := dd["acc"]; len(acc) == 1 && strings.Contains(acc[0], fmt.Sprintf("01%x", S.Bytes())) {
+				delete(dd, "acc")
+			}
+			if len(dd) > 0 {
+				detail := map[string]any{}
+				for sn, ls := range dd {
+					if len(ls) > 4 {
+						ls = ls[:4]
+					}
+					detail["diff:"+sn] = ls
+				}
+				res.AddViolation(engine.Violation{Signature: fmt.Sprintf("C05|leaf=%s|revertpos=failed-call|leak=%s", leafFamily(l), strings.Join(leakKinds(dd), "+")),
+					What: "a precompile call that failed (and was caught by the calling contract) left state behind", Path: p, Detail: detail})
+			}
+		}
+	}
 }
 
 func Run(tier string) int {
